@@ -272,9 +272,9 @@ def _noop_hook(value):
 def build_attr_value(v):
     t = v["t"]
     if t == "str":
-        return v["s"]
+        return StrSub(v["s"]) if v.get("sub") else v["s"]
     if t == "html":
-        return ht.HTML(v["s"])
+        return HTMLSub(v["s"]) if v.get("sub") else ht.HTML(v["s"])
     if t == "num":
         return _num(v["v"])
     if t == "true":
